@@ -91,8 +91,37 @@ func newObjectTemplate(class string) *corev1alpha1.ObjectTemplate {
 		t.Spec.Sources[0].Namespace = "other"
 	case "optionalFirst":
 		t.Spec.Sources = []corev1alpha1.ObjectTemplateSource{srcB, srcA}
+	case "secretSrc":
+		// the required source is a Secret: a kind the template's own target watch does not cover
+		t.Spec.Sources[0].Kind = "Secret"
 	}
 	return t
+}
+
+// neighbourTemplate: another ObjectTemplate (t0) that already watches the kinds t1's sources have
+// (Secret src-z -> ConfigMap out0). It is never edited and never checked; it only shares the dynamic cache.
+func neighbourTemplate() *corev1alpha1.ObjectTemplate {
+	t := &corev1alpha1.ObjectTemplate{ObjectMeta: metav1.ObjectMeta{Name: "t0", Namespace: NS}}
+	t.Spec.Sources = []corev1alpha1.ObjectTemplateSource{{APIVersion: "v1", Kind: "Secret", Name: "src-z",
+		Items: []corev1alpha1.ObjectTemplateSourceItem{{Key: ".data.z", Destination: ".a"}}}}
+	t.Spec.Template = strings.ReplaceAll(tmplOK, "name: out", "name: out0")
+	return t
+}
+
+func srcAKey(class string) Key {
+	if class == "secretSrc" {
+		return Key{"", "Secret", NS, "src-a"}
+	}
+	return KCM("src-a")
+}
+
+func srcAWith(class, val string) *unstructured.Unstructured {
+	if class == "secretSrc" {
+		u := Obj(gvkSecret, NS, "src-a")
+		u.Object["data"] = map[string]any{"a": val}
+		return u
+	}
+	return cmWith("src-a", "a", val)
 }
 
 type tmWorld struct {
@@ -157,7 +186,8 @@ func (tw *tmWorld) runPass(k Key) {
 	delete(tw.pending, k)
 	delete(tw.timers, k)
 	// snapshot of every object the pass may touch, to feed its own writes back as triggers
-	keys := []Key{KCM("src-a"), KCM("src-b"), KCM("out"), {"", "ConfigMap", "other", "src-a"}, {"", "ConfigMap", "other", "out"}}
+	keys := []Key{KCM("src-a"), KCM("src-b"), KCM("out"), {"", "ConfigMap", "other", "src-a"}, {"", "ConfigMap", "other", "out"},
+		{"", "Secret", NS, "src-a"}, {"", "Secret", NS, "src-z"}, KCM("out0")}
 	before := map[Key]map[string]any{}
 	for _, x := range keys {
 		before[x] = w.Store.Snapshot(x)
@@ -219,7 +249,7 @@ func cmWith(name, key, val string) *unstructured.Unstructured {
 
 func init() {
 	extraDrivers["template-walk"] = func(w *World, _ *flag.FlagSet, a driverArgs) int {
-		classes := []string{"ok", "ok", "ok2", "optionalFirst", "bad", "targetOtherNS", "sourceOtherNS"}
+		classes := []string{"ok", "ok", "ok2", "optionalFirst", "bad", "targetOtherNS", "sourceOtherNS", "secretSrc", "secretSrc"}
 		for i := 0; i < a.n; i++ {
 			if i%a.shards != a.shard {
 				continue
@@ -232,9 +262,17 @@ func init() {
 			tw := &tmWorld{w: w, pending: map[Key]bool{}, timers: map[Key]bool{}, class: class}
 			tw.handler = dynamiccache.NewEnqueueWatchingObjects(w.Dyn, &corev1alpha1.ObjectTemplate{}, w.Scheme)
 			w.Emit(Event{Actor: "sim", Ev: "Row", Key: "-", Args: map[string]any{"row": i, "class": class, "classes": map[string]any{}, "flavour": "tm", "hasDup": false}})
+			// another template that shares the dynamic cache and already watches Secrets and ConfigMaps
+			if class == "secretSrc" || rng.Intn(3) == 0 {
+				z := Obj(gvkSecret, NS, "src-z")
+				z.Object["data"] = map[string]any{"z": "z0"}
+				tw.env(Key{"", "Secret", NS, "src-z"}, func() { w.EnvCreate(z) })
+				tw.env(KOT("t0"), func() { w.EnvCreate(neighbourTemplate()) })
+				tw.settle()
+			}
 			// some sources may pre-exist
 			if rng.Intn(2) == 0 {
-				tw.env(KCM("src-a"), func() { w.EnvCreate(cmWith("src-a", "a", "a0")) })
+				tw.env(srcAKey(class), func() { w.EnvCreate(srcAWith(class, "a0")) })
 			}
 			if class == "sourceOtherNS" {
 				u := cmWith("src-a", "a", "foreign")
@@ -250,9 +288,9 @@ func init() {
 				v := fmt.Sprintf("v%d", vals)
 				switch rng.Intn(9) {
 				case 0, 1:
-					k := KCM("src-a")
+					k := srcAKey(class)
 					if w.Store.Snapshot(k) == nil {
-						tw.env(k, func() { w.EnvCreate(cmWith("src-a", "a", v)) })
+						tw.env(k, func() { w.EnvCreate(srcAWith(class, v)) })
 					} else {
 						tw.env(k, func() {
 							w.EnvMutate("EnvEdit", k, map[string]any{"tag": v}, func(m map[string]any) { m["data"] = map[string]any{"a": v} })
@@ -268,7 +306,7 @@ func init() {
 						})
 					}
 				case 4:
-					k := []Key{KCM("src-a"), KCM("src-b")}[rng.Intn(2)]
+					k := []Key{srcAKey(class), KCM("src-b")}[rng.Intn(2)]
 					tw.env(k, func() { w.EnvDelete(k, false) })
 				case 5:
 					// somebody edits or deletes the output
@@ -298,6 +336,9 @@ func init() {
 					if rng.Intn(4) == 0 {
 						w.Restart()
 						tw.pending[KOT("t1")] = true // a restarted manager reconciles every object once
+						if w.Store.Snapshot(KOT("t0")) != nil {
+							tw.pending[KOT("t0")] = true
+						}
 					}
 				}
 				if rng.Intn(2) == 0 {
@@ -319,7 +360,7 @@ func init() {
 func countTemplateRefs(w *World) int {
 	n := 0
 	for _, r := range w.Dyn.Refs() {
-		if strings.Contains(r, "<- ObjectTemplate/") {
+		if strings.Contains(r, "<- ObjectTemplate/"+NS+"/t1#") {
 			n++
 		}
 	}
